@@ -1,7 +1,8 @@
 //! C09 — relational transactions are all-or-nothing and writers exclude each other (DESIGN §4, C09).
 //!
-//! One table t(h Int, o Int); `h` carries a hash index, `o` an ordered (B-tree) index (config 1:
-//! both kinds on h, o and `_id`). 2-3 pre-existing rows sharing index keys. Everything runs on the
+//! One table t(h Int, o Int); `h` carries a hash index, `o` an ordered (B-tree) index (config 0);
+//! config 1: both kinds on h, o and the system column `_id`; config 2: config 0 + hash index on `_id`;
+//! config 3: config 0 + ordered index on `_id`. 2-3 pre-existing rows sharing index keys. Everything runs on the
 //! real RelationalEngine; sequential cases get a fresh table each (the engine itself is replaced
 //! whenever a case does not end with every transaction finished and every lock gone).
 //!
@@ -14,6 +15,8 @@
 //!   writer. (31 s = lock timeout passed, transaction timeout not: information only.)
 //! Part S4 (taken-over lock): tx0 writes, +31 s, tx1 writes the same rows (admitted: information),
 //!   tx0 ends, +0/+29 s, a third writer must be refused by tx1's fresh lock; tx1, tx2 end both ways.
+//! Part S5 (expiry entry points): holder statement, clock +0/29/31/61 s, cleanup_expired_locks() +
+//!   cleanup_expired(), second writer, ends; thorough: also inside the S4 shape.
 //! Part T (lock-level): 2-3 real threads under vsched, every schedule with <= bound preemptions;
 //!   judged from the call results: two open transactions never both write a row, the final table
 //!   is the committed transactions' writes in some order (rolled-back ones leave nothing), indexed
@@ -25,7 +28,7 @@
 //!   transaction must be refused by every tx_* call, and no row lock may be left.
 //! Information only (never a verdict): a non-transactional statement on a row an open transaction
 //!   holds; a second writer admitted after the 30 s lock timeout while the holder is still open.
-//! Flags: --selftest (corrupted reference: must print VIOLATION), --replay <file>, --only=S1|S2|S3|S4|T,
+//! Flags: --selftest (corrupted reference: must print VIOLATION), --replay <file>, --only=S1|S2|S3|S4|S5|T,
 //!   --repro (standalone reproductions of the findings), --probe-cost.
 use nvc::{env, par, Report};
 use relational_engine::{Column, ColumnType, ColumnarScanOptions, Condition, CursorOptions, RelationalEngine, RelationalError, Row, Schema, Value};
@@ -135,6 +138,8 @@ enum Ev {
     Rollback(u8),
     NonTx(Stmt),
     Advance(i64),
+    /// the expiry entry points: tx_manager().cleanup_expired_locks() then tx_manager().cleanup_expired()
+    Cleanup,
 }
 fn show_ev(e: &Ev) -> String {
     match e {
@@ -143,6 +148,7 @@ fn show_ev(e: &Ev) -> String {
         Ev::Rollback(k) => format!("rollback(tx{k})"),
         Ev::NonTx(s) => s.show(""),
         Ev::Advance(ms) => format!("clock+{ms}ms"),
+        Ev::Cleanup => "cleanup_expired_locks(); cleanup_expired()".into(),
     }
 }
 #[derive(Clone, Debug, Serialize, Deserialize)]
@@ -158,6 +164,22 @@ struct Case {
 fn vals(h: i64, o: i64) -> HashMap<String, Value> {
     HashMap::from([("h".to_string(), Value::Int(h)), ("o".to_string(), Value::Int(o))])
 }
+/// index configurations: 0 = hash(h), ordered(o); 1 = hash and ordered on each of h, o, `_id`;
+/// 2 = config 0 + hash(`_id`); 3 = config 0 + ordered(`_id`)
+fn id_hash(cfg: u8) -> bool {
+    cfg == 1 || cfg == 2
+}
+fn id_ordered(cfg: u8) -> bool {
+    cfg == 1 || cfg == 3
+}
+fn cfg_text(cfg: u8) -> &'static str {
+    match cfg {
+        0 => "hash(h)+ordered(o)",
+        1 => "hash+ordered on h, o and _id",
+        2 => "hash(h)+ordered(o)+hash(_id)",
+        _ => "hash(h)+ordered(o)+ordered(_id)",
+    }
+}
 fn setup(cfg: u8, rows0: u8) -> RelationalEngine {
     let e = RelationalEngine::new();
     setup_in(&e, T, cfg, rows0);
@@ -165,13 +187,19 @@ fn setup(cfg: u8, rows0: u8) -> RelationalEngine {
 }
 fn setup_in(e: &RelationalEngine, t: &str, cfg: u8, rows0: u8) {
     e.create_table(t, Schema::new(vec![Column::new("h", ColumnType::Int), Column::new("o", ColumnType::Int)])).expect("create_table");
-    if cfg == 0 {
-        e.create_index(t, "h").expect("create_index h");
-        e.create_btree_index(t, "o").expect("create_btree_index o");
-    } else {
+    if cfg == 1 {
         for c in ["h", "o", "_id"] {
             e.create_index(t, c).expect("create_index");
             e.create_btree_index(t, c).expect("create_btree_index");
+        }
+    } else {
+        e.create_index(t, "h").expect("create_index h");
+        e.create_btree_index(t, "o").expect("create_btree_index o");
+        if cfg == 2 {
+            e.create_index(t, "_id").expect("create_index _id");
+        }
+        if cfg == 3 {
+            e.create_btree_index(t, "_id").expect("create_btree_index _id");
         }
     }
     for r in &INIT[..rows0 as usize] {
@@ -261,6 +289,9 @@ enum Q {
     OGt(i64),
     OGe(i64),
     IdEq(u64),
+    IdLt(u64),
+    IdLe(u64),
+    IdGt(u64),
     IdGe(u64),
     And(Box<Q>, Box<Q>),
     Or(Box<Q>, Box<Q>),
@@ -278,6 +309,9 @@ impl Q {
             Q::OGt(v) => Condition::Gt("o".into(), i(*v)),
             Q::OGe(v) => Condition::Ge("o".into(), i(*v)),
             Q::IdEq(k) => Condition::Eq("_id".into(), i(*k as i64)),
+            Q::IdLt(k) => Condition::Lt("_id".into(), i(*k as i64)),
+            Q::IdLe(k) => Condition::Le("_id".into(), i(*k as i64)),
+            Q::IdGt(k) => Condition::Gt("_id".into(), i(*k as i64)),
             Q::IdGe(k) => Condition::Ge("_id".into(), i(*k as i64)),
             Q::And(a, b) => a.cond().and(b.cond()),
             Q::Or(a, b) => a.cond().or(b.cond()),
@@ -294,6 +328,9 @@ impl Q {
             Q::OGt(v) => r.1 > *v,
             Q::OGe(v) => r.1 >= *v,
             Q::IdEq(k) => id == *k,
+            Q::IdLt(k) => id < *k,
+            Q::IdLe(k) => id <= *k,
+            Q::IdGt(k) => id > *k,
             Q::IdGe(k) => id >= *k,
             Q::And(a, b) => a.eval(id, r) && b.eval(id, r),
             Q::Or(a, b) => a.eval(id, r) || b.eval(id, r),
@@ -310,43 +347,61 @@ impl Q {
             Q::OGt(v) => format!("o > {v}"),
             Q::OGe(v) => format!("o >= {v}"),
             Q::IdEq(k) => format!("_id = {k}"),
+            Q::IdLt(k) => format!("_id < {k}"),
+            Q::IdLe(k) => format!("_id <= {k}"),
+            Q::IdGt(k) => format!("_id > {k}"),
             Q::IdGe(k) => format!("_id >= {k}"),
             Q::And(a, b) => format!("({} AND {})", a.show(), b.show()),
             Q::Or(a, b) => format!("({} OR {})", a.show(), b.show()),
         }
     }
-    /// which access path answers the query in index config `cfg`
+    /// which access path answers the query in index config `cfg` (Eq is served by a hash index only,
+    /// Lt/Le/Gt/Ge by an ordered index only, AND by its first index-served arm, everything else scans)
     fn path(&self, cfg: u8) -> &'static str {
         match self {
             Q::All | Q::Or(..) => "scan",
             Q::HEq(_) => "hash-index(h)-eq",
             Q::HGe(_) => {
-                if cfg == 0 {
-                    "scan"
-                } else {
+                if cfg == 1 {
                     "ordered-index(h)-range"
+                } else {
+                    "scan"
                 }
             }
             Q::OEq(_) => {
-                if cfg == 0 {
-                    "ordered-index(o)-eq"
-                } else {
+                if cfg == 1 {
                     "hash-index(o)-eq"
+                } else {
+                    "scan(o)-eq"
                 }
             }
             Q::OLt(_) | Q::OLe(_) | Q::OGt(_) | Q::OGe(_) => "ordered-index(o)-range",
-            Q::IdEq(_) | Q::IdGe(_) => {
-                if cfg == 0 {
-                    "id"
+            Q::IdEq(_) => {
+                if id_hash(cfg) {
+                    "hash-index(_id)-eq"
                 } else {
-                    "index(_id)"
+                    "scan(_id)"
                 }
             }
-            Q::And(a, _) => a.path(cfg),
+            Q::IdLt(_) | Q::IdLe(_) | Q::IdGt(_) | Q::IdGe(_) => {
+                if id_ordered(cfg) {
+                    "ordered-index(_id)-range"
+                } else {
+                    "scan(_id)"
+                }
+            }
+            Q::And(a, b) => {
+                let pa = a.path(cfg);
+                if pa.starts_with("scan") {
+                    b.path(cfg)
+                } else {
+                    pa
+                }
+            }
         }
     }
 }
-fn battery_queries(max_id: u64) -> Vec<Q> {
+fn battery_queries(max_id: u64, cfg: u8) -> Vec<Q> {
     let mut v = vec![Q::All];
     for x in 1..=5 {
         v.push(Q::HEq(x));
@@ -369,6 +424,24 @@ fn battery_queries(max_id: u64) -> Vec<Q> {
     v.push(Q::And(Box::new(Q::OGe(2)), Box::new(Q::HEq(1))));
     v.push(Q::And(Box::new(Q::OLe(2)), Box::new(Q::HGe(2))));
     v.push(Q::Or(Box::new(Q::HEq(1)), Box::new(Q::HEq(3))));
+    if id_hash(cfg) || id_ordered(cfg) {
+        // conditions on the system column served by its index: every bound around the initial rows
+        // (row k is in `_id <= k`, `_id >= k`, out of `_id < k`, `_id > k`), all rows, none
+        for k in 1..=3 {
+            v.push(Q::IdLt(k));
+            v.push(Q::IdLe(k));
+            v.push(Q::IdGt(k));
+            if k != 2 {
+                v.push(Q::IdGe(k));
+            }
+        }
+        v.push(Q::IdLe(max_id));
+        v.push(Q::IdGt(max_id));
+        // `_id` as the index-served arm of a conjunction, first and second
+        v.push(Q::And(Box::new(Q::IdEq(1)), Box::new(Q::OGe(1))));
+        v.push(Q::And(Box::new(Q::IdGe(1)), Box::new(Q::HEq(1))));
+        v.push(Q::And(Box::new(Q::HGe(1)), Box::new(Q::IdLe(2))));
+    }
     v
 }
 fn row_pair(r: &Row) -> Option<RowV> {
@@ -385,7 +458,7 @@ struct BatteryFail {
 fn battery(e: &RelationalEngine, t: &str, m: &Table, max_id: u64, cfg: u8, level: u8, evals: &mut u64) -> Option<BatteryFail> {
     let probe = e.begin_transaction();
     let mut fail = None;
-    'outer: for q in battery_queries(max_id) {
+    'outer: for q in battery_queries(max_id, cfg) {
         let exp: Vec<u64> = m.iter().filter(|(id, r)| q.eval(**id, r)).map(|(id, _)| *id).collect();
         let c = q.cond();
         let mut runs: Vec<(&'static str, Result<Vec<u64>, String>, Option<Vec<Row>>)> = vec![];
@@ -604,6 +677,14 @@ struct Info {
     refused_by_lock_taken_over_after_expiry: u64,
     /// cases in which a transaction rolled back rows it had lost to a later writer: table adopted, not judged
     cases_with_table_undefined_after_expiry_takeover: u64,
+    /// non-vacuity of the `_id`-index configurations: cases in which a transactional delete / update / insert
+    /// that changed the table was rolled back and the `_id`-index queries were then compared
+    #[serde(default)]
+    id_index_cases_rolled_back_delete_then_queried: u64,
+    #[serde(default)]
+    id_index_cases_rolled_back_insert_then_queried: u64,
+    #[serde(default)]
+    id_index_cases_committed_delete_or_insert_then_queried: u64,
 }
 impl Info {
     fn add(&mut self, o: &Info) {
@@ -615,6 +696,9 @@ impl Info {
         self.cases_cut_at_first_violation += o.cases_cut_at_first_violation;
         self.refused_by_lock_taken_over_after_expiry += o.refused_by_lock_taken_over_after_expiry;
         self.cases_with_table_undefined_after_expiry_takeover += o.cases_with_table_undefined_after_expiry_takeover;
+        self.id_index_cases_rolled_back_delete_then_queried += o.id_index_cases_rolled_back_delete_then_queried;
+        self.id_index_cases_rolled_back_insert_then_queried += o.id_index_cases_rolled_back_insert_then_queried;
+        self.id_index_cases_committed_delete_or_insert_then_queried += o.id_index_cases_committed_delete_or_insert_then_queried;
     }
 }
 #[derive(Default)]
@@ -662,6 +746,10 @@ fn run_case_in(e: &RelationalEngine, tn: &str, case: &Case, level: u8, selftest:
         }};
     }
     let mut any_rollback = false;
+    // per transaction: did one of its statements delete / insert a row
+    let mut tx_deleted = vec![false; case.ntx as usize];
+    let mut tx_inserted = vec![false; case.ntx as usize];
+    let (mut rb_del, mut rb_ins, mut co_any) = (false, false, false);
     // rows whose expired lock was taken over while the first holder was open; once such a holder rolls
     // back, the table is no longer defined by the property (documented lock expiry): it is adopted
     let mut contested: BTreeSet<u64> = BTreeSet::new();
@@ -685,6 +773,19 @@ fn run_case_in(e: &RelationalEngine, tn: &str, case: &Case, level: u8, selftest:
                 env::clock_advance_ms(*ms);
                 m.now += ms;
                 after = "clock";
+            }
+            Ev::Cleanup => {
+                // removes what has timed out and nothing else: the reference does not change, so every
+                // check below (table, row locks, later admissions, later commit) judges its effect
+                let tm = e.tx_manager();
+                let _ = tm.cleanup_expired_locks();
+                let _ = tm.cleanup_expired();
+                after = "cleanup";
+                for k in 0..m.tx.len() {
+                    if m.tx[k].st == TxSt::Active && !m.tx_expired(k) && !e.is_transaction_active(m.tx[k].real_id) {
+                        fail!("c09:cleanup:open-unexpired-tx-removed".to_string(), format!("after [{}]: is_transaction_active(tx{k}) is false although tx{k} is open and younger than the transaction timeout", hist(i)));
+                    }
+                }
             }
             Ev::Tx(_, s) | Ev::NonTx(s) => {
                 let me = if let Ev::Tx(k, _) = ev { Some(*k as usize) } else { None };
@@ -760,6 +861,10 @@ fn run_case_in(e: &RelationalEngine, tn: &str, case: &Case, level: u8, selftest:
                         if m.take_over(me, &ids) {
                             contested.extend(ids.iter().copied());
                         }
+                        if let Some(k) = me {
+                            tx_deleted[k] |= matches!(s, Stmt::Del(_)) && !ids.is_empty();
+                            tx_inserted[k] |= matches!(s, Stmt::Ins(..));
+                        }
                         m.apply(me, s, &ids);
                     }
                 }
@@ -780,12 +885,20 @@ fn run_case_in(e: &RelationalEngine, tn: &str, case: &Case, level: u8, selftest:
                     out.info.rollback_returned_error += 1;
                 }
                 any_rollback |= !commit;
+                rb_del |= !commit && tx_deleted[k];
+                rb_ins |= !commit && tx_inserted[k];
+                co_any |= commit && (tx_deleted[k] || tx_inserted[k]);
                 if !commit && !m.tx[k].lost.is_empty() && !tainted {
                     tainted = true;
                     out.info.cases_with_table_undefined_after_expiry_takeover += 1;
                 }
                 adopt = tainted;
                 m.end(k, commit, selftest);
+                let n = e.tx_manager().locks_held_by(id);
+                out.evals += 1;
+                if n != 0 {
+                    fail!("c09:lock:left-behind-after-end".to_string(), format!("after [{}]: locks_held_by(tx{k}) = {n} after its {after}", hist(i)));
+                }
             }
         }
         match raw(e, tn) {
@@ -797,6 +910,7 @@ fn run_case_in(e: &RelationalEngine, tn: &str, case: &Case, level: u8, selftest:
                     "commit" => "c09:commit:table-differs".to_string(),
                     "refused statement" => "c09:refused-statement:table-changed".to_string(),
                     "clock" => "c09:clock:table-changed".to_string(),
+                    "cleanup" => "c09:cleanup:table-changed".to_string(),
                     _ => format!("c09:statement:effect-differs:{}", if let Ev::Tx(_, s) | Ev::NonTx(s) = ev { s.kind() } else { "" }),
                 };
                 fail!(sig, format!("after [{}]: {}", hist(i), diff(&t, &m.rows)));
@@ -811,6 +925,11 @@ fn run_case_in(e: &RelationalEngine, tn: &str, case: &Case, level: u8, selftest:
             if let Some((k, _)) = holds.iter().find(|h| h.1 == Hold::Hard) {
                 if !locked {
                     fail!("c09:lock:missing-for-row-held-by-open-tx".to_string(), format!("after [{}]: is_row_locked(row {id}) is false although the open tx{k} wrote the row and its lock is younger than the lock timeout", hist(i)));
+                }
+                let holder = e.tx_manager().row_lock_holder(tn, id);
+                out.evals += 1;
+                if holds.len() == 1 && holder != Some(m.tx[*k].real_id) {
+                    fail!("c09:lock:holder-is-not-the-writer".to_string(), format!("after [{}]: row_lock_holder(row {id}) = {holder:?}; the only open transaction that wrote the row is tx{k} (id {})", hist(i), m.tx[*k].real_id));
                 }
             } else if holds.is_empty() && locked {
                 fail!("c09:lock:left-behind-after-end".to_string(), format!("after [{}]: row {id} is locked although no open transaction holds it", hist(i)));
@@ -839,7 +958,12 @@ fn run_case_in(e: &RelationalEngine, tn: &str, case: &Case, level: u8, selftest:
     let phase = if any_rollback { "after-rollback" } else { "after-commit" };
     if !tainted {
         if let Some(f) = battery(e, tn, &m.rows, m.next_id, case.cfg, level, &mut out.evals) {
-            fail!(format!("c09:query-{phase}:{}", f.sig), format!("after [{all}]: {}", f.msg));
+            fail!(format!("c09:query-{phase}:{}", f.sig), format!("after [{all}] (indexes: {}): {}", cfg_text(case.cfg), f.msg));
+        }
+        if id_hash(case.cfg) || id_ordered(case.cfg) {
+            out.info.id_index_cases_rolled_back_delete_then_queried += u64::from(rb_del);
+            out.info.id_index_cases_rolled_back_insert_then_queried += u64::from(rb_ins);
+            out.info.id_index_cases_committed_delete_or_insert_then_queried += u64::from(co_any);
         }
     }
     // finished transactions are refused by every tx_* call and change nothing
@@ -953,18 +1077,20 @@ fn tx_script(k: u8, stmts: &[Stmt], commit: bool) -> Vec<Ev> {
 
 struct Plan {
     s1: Vec<(u8, u8, usize)>, // (cfg, rows0, max script length)
-    s2_pairs: Vec<(usize, usize)>,
+    s2_pairs: Vec<(u8, usize, usize)>, // (cfg, script length of tx0, of tx1)
     s2_triples: bool,
+    /// S5 also runs the taken-over-lock shape of S4 with the cleanup calls before the second writer
+    s5_takeover: bool,
     level: u8,
     bound: usize,
 }
 fn plan(thorough: bool, selftest: bool) -> Plan {
     if selftest {
-        Plan { s1: vec![(0, 2, 2)], s2_pairs: vec![(1, 1)], s2_triples: false, level: 0, bound: 1 }
+        Plan { s1: vec![(0, 2, 2)], s2_pairs: vec![(0, 1, 1)], s2_triples: false, s5_takeover: false, level: 0, bound: 1 }
     } else if thorough {
-        Plan { s1: vec![(0, 2, 4), (1, 3, 3)], s2_pairs: vec![(1, 1), (1, 2), (2, 1), (2, 2)], s2_triples: true, level: 1, bound: 3 }
+        Plan { s1: vec![(0, 2, 4), (2, 2, 3), (3, 2, 3), (1, 3, 3)], s2_pairs: vec![(0, 1, 1), (0, 1, 2), (0, 2, 1), (0, 2, 2), (1, 1, 1), (1, 1, 2), (1, 2, 1)], s2_triples: true, s5_takeover: true, level: 1, bound: 3 }
     } else {
-        Plan { s1: vec![(0, 2, 3)], s2_pairs: vec![(1, 1), (1, 2), (2, 1)], s2_triples: false, level: 0, bound: 2 }
+        Plan { s1: vec![(0, 2, 3), (2, 2, 2), (3, 2, 2), (1, 3, 2)], s2_pairs: vec![(0, 1, 1), (0, 1, 2), (0, 2, 1), (1, 1, 1)], s2_triples: false, s5_takeover: false, level: 0, bound: 2 }
     }
 }
 /// calls `f(index, case)` for every case of the sequential parts, simplest first
@@ -995,13 +1121,13 @@ fn for_each_case(pl: &Plan, only: Option<&str>, f: &mut dyn FnMut(u64, Case)) {
         }
     }
     if want("S2") {
-        for &(l0, l1) in &pl.s2_pairs {
+        for &(cfg, l0, l1) in &pl.s2_pairs {
             for s0 in product(&s2_alphabet(0), l0) {
                 for s1 in product(&s2_alphabet(1), l1) {
                     for c0 in [false, true] {
                         for c1 in [false, true] {
                             for events in merges(&[tx_script(0, &s0, c0), tx_script(1, &s1, c1)]) {
-                                emit(Case { part: "S2".into(), cfg: 0, rows0: 2, ntx: 2, events });
+                                emit(Case { part: "S2".into(), cfg, rows0: 2, ntx: 2, events });
                             }
                         }
                     }
@@ -1068,6 +1194,56 @@ fn for_each_case(pl: &Plan, only: Option<&str>, f: &mut dyn FnMut(u64, Case)) {
                                     events.extend(order);
                                     emit(Case { part: "S4".into(), cfg: 0, rows0: 2, ntx: 3, events });
                                 }
+                            }
+                        }
+                    }
+                }
+            }
+        }
+    }
+    // S5: the expiry entry points. Shape A: holder statement by tx0, clock +0/29/31/61 s,
+    // cleanup_expired_locks() + cleanup_expired(), second writer tx1, ends. Within both timeouts the
+    // calls must change nothing (rows stay locked, the writer is refused, the holder can still commit);
+    // past both, the holder's locks must be gone. Shape B (thorough): S4 with the calls placed between
+    // the lock expiry and the second writer.
+    if want("S5") {
+        for s0 in s2_alphabet(0) {
+            for s1 in s2_alphabet(1) {
+                for adv in [0, 29_000, 31_000, 61_000] {
+                    let mut events = vec![Ev::Tx(0, s0)];
+                    if adv > 0 {
+                        events.push(Ev::Advance(adv));
+                    }
+                    events.push(Ev::Cleanup);
+                    events.push(Ev::Tx(1, s1));
+                    if adv <= 29_000 {
+                        for ends in [[Ev::Rollback(1), Ev::Commit(0)], [Ev::Rollback(0), Ev::Commit(1)], [Ev::Commit(0), Ev::Commit(1)]] {
+                            let mut ev = events.clone();
+                            ev.extend(ends);
+                            emit(Case { part: "S5".into(), cfg: 0, rows0: 2, ntx: 2, events: ev });
+                        }
+                    } else {
+                        for end1 in [Ev::Commit(1), Ev::Rollback(1)] {
+                            let mut ev = events.clone();
+                            ev.push(end1);
+                            emit(Case { part: "S5".into(), cfg: 0, rows0: 2, ntx: 2, events: ev });
+                        }
+                    }
+                }
+            }
+        }
+        if pl.s5_takeover {
+            for s0 in s2_alphabet(0) {
+                for s1 in s2_alphabet(1) {
+                    for commit0 in [true, false] {
+                        for s2 in s2_alphabet(2) {
+                            let head = vec![Ev::Tx(0, s0), Ev::Advance(31_000), Ev::Cleanup, Ev::Tx(1, s1), if commit0 { Ev::Commit(0) } else { Ev::Rollback(0) }, Ev::Cleanup, Ev::Tx(2, s2)];
+                            for ends in 0..4u8 {
+                                let e1 = if ends & 1 != 0 { Ev::Commit(1) } else { Ev::Rollback(1) };
+                                let e2 = if ends & 2 != 0 { Ev::Commit(2) } else { Ev::Rollback(2) };
+                                let mut events = head.clone();
+                                events.extend([e1, e2]);
+                                emit(Case { part: "S5".into(), cfg: 0, rows0: 2, ntx: 3, events });
                             }
                         }
                     }
@@ -1332,6 +1508,8 @@ fn judge(p: &Program, e: &RelationalEngine, tx: &[u64], mut recs: Vec<Rec>, self
 struct WStats {
     // sequential parts
     cases: BTreeMap<String, u64>,
+    #[serde(default)]
+    cases_by_config: BTreeMap<String, u64>,
     steps: u64,
     evals: u64,
     effective_cases: u64,
@@ -1453,6 +1631,7 @@ fn worker(i: usize, n: usize, thorough: bool, selftest: bool, only: Option<&str>
         }
         let out = run_case(&mut pool, &case, pl.level, selftest);
         *st.cases.entry(case.part.clone()).or_default() += 1;
+        *st.cases_by_config.entry(format!("{} cfg{} ({})", case.part, case.cfg, cfg_text(case.cfg))).or_default() += 1;
         st.steps += out.steps;
         st.evals += out.evals;
         st.effective_cases += u64::from(out.effective);
@@ -1599,24 +1778,29 @@ fn main() {
         rep.finish();
     }
     rep.rule(&format!(
-        "S1: every script of <= L statements over a 12-letter alphabet of tx_insert/tx_update/tx_delete (conditions through _id, the hash-indexed column, the ordered-indexed column, TRUE) ended by commit or rollback, alone and with each of 4 (length-4 scripts: 2) non-transactional statements at every position; (index config, initial rows, L) = {:?}. S2: every pair of scripts (lengths {:?}{}) of two transactions writing tagged values to overlapping rows, both ends each, every merge order of statements and ends. S3: holder statement, clock +0/29/31/61 s, second writer. S4: holder statement by tx0, clock +31 s, second writer tx1 on overlapping rows (admission = information), tx0 commits or rolls back, clock +0/+29 s, third writer tx2 (must be refused wherever tx1 holds the row with its fresh lock; is_row_locked must be true), then tx1 and tx2 end both ways in both orders; after a rollback of a transaction that lost rows to a later writer the table is adopted instead of judged. After every event of every case is_row_locked must be true for rows an open transaction holds with a fresh lock and false for rows nobody holds. T: {} programs of 2-3 real threads, every schedule with <= {} preemptions (<= 2 for three threads or two calls per thread). Each case runs on a fresh table of a real RelationalEngine (one engine per worker process, replaced whenever a case does not end with all transactions finished and all locks gone); after every event the slab is compared with a sequential reference (held rows, undo images); at the end a battery of {} queries goes through select/count/select_columnar/tx_select{} and must return the reference rows, finished ids must be refused by every tx_* call, no lock may remain. non-trivial = cases in which at least one statement changed the table + schedules with >= 1 preemption",
+        "S1: every script of <= L statements over a 12-letter alphabet of tx_insert/tx_update/tx_delete (conditions through _id, the hash-indexed column, the ordered-indexed column, TRUE) ended by commit or rollback, alone and with each of 4 (length-4 scripts: 2) non-transactional statements at every position; (index config, initial rows, L) = {:?}; index configs: 0 = hash(h)+ordered(o), 1 = hash and ordered on each of h, o and the system column _id, 2 = config 0 + create_index(t, \"_id\"), 3 = config 0 + create_btree_index(t, \"_id\"). S2: every pair of scripts ((index config, length of tx0, length of tx1) = {:?}{}) of two transactions writing tagged values to overlapping rows, both ends each, every merge order of statements and ends. S3: holder statement, clock +0/29/31/61 s, second writer. S4: holder statement by tx0, clock +31 s, second writer tx1 on overlapping rows (admission = information), tx0 commits or rolls back, clock +0/+29 s, third writer tx2 (must be refused wherever tx1 holds the row with its fresh lock; is_row_locked must be true), then tx1 and tx2 end both ways in both orders; after a rollback of a transaction that lost rows to a later writer the table is adopted instead of judged. S5 (expiry entry points): holder statement, clock +0/29/31/61 s, tx_manager().cleanup_expired_locks() + cleanup_expired(), second writer, ends (within both timeouts the calls must change nothing: table, locks, refusal of the second writer, the holder stays active and commits; past both the holder's locks must be gone){}. After every event of every case is_row_locked must be true for rows an open transaction holds with a fresh lock (and row_lock_holder must name that transaction) and false for rows nobody holds; after every commit/rollback locks_held_by(tx) must be 0. T: {} programs of 2-3 real threads, every schedule with <= {} preemptions (<= 2 for three threads or two calls per thread). Each case runs on a fresh table of a real RelationalEngine (one engine per worker process, replaced whenever a case does not end with all transactions finished and all locks gone); after every event the slab is compared with a sequential reference (held rows, undo images); at the end a battery of {} queries (configs with an index on _id: {} queries, adding _id <,<=,>,>= k for every k around the initial rows, _id <= / > the largest id, and _id conditions as first and second arm of AND, which the hash / ordered index on _id serves) goes through select/count/select_columnar/tx_select{} and must return the reference rows (the same battery is checked against the initial table of every configuration before any transaction runs), finished ids must be refused by every tx_* call, no lock may remain. non-trivial = cases in which at least one statement changed the table + schedules with >= 1 preemption",
         pl.s1,
         pl.s2_pairs,
         if pl.s2_triples { ", and every triple of one-statement transactions" } else { "" },
+        if pl.s5_takeover { "; and the S4 shape with the two calls placed after the lock expiry and after the first holder's end" } else { "" },
         programs(thorough).len(),
         pl.bound,
-        battery_queries(4).len(),
+        battery_queries(4, 0).len(),
+        battery_queries(4, 1).len(),
         if pl.level >= 1 { "/select_streaming/select_iter/select_with_limit" } else { "" }
     ));
     rep.assume("values are non-null integers (NULL / float index defects belong to C04); reads inside a transaction see other transactions' uncommitted in-place changes (that is how the engine matches rows; the statement promises nothing about reads)");
     rep.assume("T: interleavings at lock-acquisition granularity; relational_engine, its TransactionManager/RowLockManager, RelationalSlab and TensorStore use only parking_lot and dashmap locks on the driven paths; atomics (TX_COUNTER, row counters, btree_entry_count) are not scheduling points");
+    rep.assume("a transaction older than transaction_timeout_secs that cleanup_expired() removes is neither committed nor rolled back: its in-place changes stay and are not judged (only that its locks are gone and that live transactions and their locks are untouched); TransactionManager::{set_phase, remove, release_locks} are raw internals whose direct use is outside the statement and are not driven");
     rep.assume("a second writer admitted after lock_timeout_secs (30 s) while the holder is open and younger than transaction_timeout_secs (60 s) is recorded as information, not judged (documented lock expiry); likewise a non-transactional statement on a row an open transaction holds");
     // the battery must agree with the reference before any transaction runs (otherwise C04's business)
-    for &(cfg, rows0, _) in &pl.s1 {
+    let mut cfgs: BTreeSet<(u8, u8)> = pl.s1.iter().map(|x| (x.0, x.1)).collect();
+    cfgs.extend(pl.s2_pairs.iter().map(|x| (x.0, 2)));
+    for &(cfg, rows0) in &cfgs {
         let e = setup(cfg, rows0);
         let mut n = 0;
         if let Some(f) = battery(&e, T, &init_table(rows0), u64::from(rows0) + 1, cfg, pl.level, &mut n) {
-            rep.machinery(format!("query battery disagrees with the reference on the initial table (config {cfg}): {}", f.msg));
+            rep.machinery(format!("query battery disagrees with the reference on the initial table (config {cfg} = {}): {}", cfg_text(cfg), f.msg));
         }
     }
     let results: Vec<WStats> = par::spawn_workers(par::worker_count(), &[]);
@@ -1624,6 +1808,9 @@ fn main() {
     for w in results {
         for (k, v) in w.cases {
             *t.cases.entry(k).or_default() += v;
+        }
+        for (k, v) in w.cases_by_config {
+            *t.cases_by_config.entry(k).or_default() += v;
         }
         t.steps += w.steps;
         t.evals += w.evals;
@@ -1665,7 +1852,7 @@ fn main() {
     rep.add("traces_validated_against_impl", s_cases + t.executions);
     rep.add("evaluations", t.evals + t.steps + t.executions);
     rep.add("distinct_nontrivial", t.effective_cases + preempted);
-    rep.part("S", json!({"cases": t.cases, "events_executed": t.steps, "query_and_refusal_checks": t.evals, "cases_with_an_effective_statement": t.effective_cases, "lock_conflicts_observed": t.conflicts_observed, "distinct_final_tables": t.final_states.len(), "information_not_judged": t.info}));
+    rep.part("S", json!({"cases": t.cases, "cases_by_part_and_index_config": t.cases_by_config, "events_executed": t.steps, "query_and_refusal_checks": t.evals, "cases_with_an_effective_statement": t.effective_cases, "lock_conflicts_observed": t.conflicts_observed, "distinct_final_tables": t.final_states.len(), "information_not_judged": t.info}));
     let single: Vec<&String> = t.outcomes.iter().filter(|(_, v)| v.len() < 2).map(|(k, _)| k).collect();
     rep.part("T", json!({"programs": t.outcomes.len(), "preemption_bound": pl.bound, "preemption_bound_per_program": programs(thorough).iter().map(|p| (p.name.clone(), program_bound(p, pl.bound))).collect::<BTreeMap<_, _>>(), "schedules_executed": t.executions, "scheduling_points": t.sched_points, "max_points_per_execution": t.max_points, "schedules_by_preemptions": t.by_preemptions, "distinct_outcomes_per_program": t.outcomes.iter().map(|(k, v)| (k.clone(), v.len())).collect::<BTreeMap<_, _>>(), "programs_with_a_single_outcome": single, "schedules_not_judged_because_a_statement_failed_half_way": t.not_judged}));
     rep.set("violating_cases_by_signature", json!(t.by_signature));
@@ -1681,6 +1868,9 @@ fn main() {
         }
         if t.conflicts_observed == 0 || t.effective_cases < s_cases / 4 || t.final_states.len() < 10 {
             rep.machinery("vacuous: sequential parts saw no lock conflict / too few effective cases / too few final tables");
+        }
+        if !selftest && (t.info.id_index_cases_rolled_back_delete_then_queried < 100 || t.info.id_index_cases_rolled_back_insert_then_queried < 100 || t.info.id_index_cases_committed_delete_or_insert_then_queried < 100) {
+            rep.machinery("vacuous: the configurations with an index on _id saw too few rolled-back / committed deletes and inserts followed by the _id-index queries");
         }
     }
     rep.finish();
